@@ -38,7 +38,7 @@ ASSUMPTIONS = [
     "clustering falls back to it are a C06 matter)",
 ]
 PROFILE = {
-    "quick": dict(examples=300, shards=16, budget_s=80),
+    "quick": dict(examples=1000, shards=16, budget_s=80),
     "thorough": dict(examples=6000, shards=16, budget_s=1100),
 }
 
@@ -94,7 +94,9 @@ def _case(draw, tier):
 
 
 def case_strategy(tier, shard=0, nshards=1):
-    return _case(tier)
+    from . import c05_ma
+    return st.one_of(_case(tier), _case(tier), _case(tier),
+                     *c05_ma.strategies(tier))
 
 
 def _model_objects(qk):
@@ -136,6 +138,9 @@ def _round_args(case, r, data, qk):
 
 
 def run_case(case):
+    if case.get("kind") == "ma":
+        from . import c05_ma
+        return c05_ma.run_case(case, params_snapshot)
     from sklearn.base import clone
     comp = case["entry"]
     ent = poolreg.base_entry(comp)
@@ -249,7 +254,9 @@ def run_case(case):
         if viol:
             break
     # clone-after behaves like clone-before (on the first round's input)
-    if not viol and results and results[0] is not None:
+    # (skipped with fit flag False: the caller's model then legitimately
+    # advances its own tie-break generator between the two compared calls)
+    if not viol and results and results[0] is not None and fit_value:
         ok, clone_after = guarded(clone, qs)
         if not ok:
             viol.append(exc_violation(comp, clone_after, f"config={cfg}",
